@@ -245,7 +245,7 @@ func (t *Trans) havocHeap(st *State, cur string, keepTrace bool, keepRepo bool) 
 		k := t.B.declConst(t.B.fresh("k"), "Int")
 		_ = k
 		cur = and(cur, fmt.Sprintf("(>= %s %s)", st.ntrace, oldN),
-			fmt.Sprintf("(forall ((?i Int)) (! (=> (and (<= 0 ?i) (< ?i %s)) (= (select %s ?i) (select %s ?i))) :pattern ((select %s ?i))))", oldN, st.trace, oldTrace, st.trace))
+			fmt.Sprintf("(forall ((?i Int)) (! (=> (and (<= 0 ?i) (< ?i %s)) (= (select %s ?i) (select %s ?i))) :pattern ((select %s ?i)) :qid e8_trans_248))", oldN, st.trace, oldTrace, st.trace))
 	}
 	return cur
 }
